@@ -124,7 +124,16 @@ func OracleC04(tr *Trace) Verdict {
 				v.Classes = append(v.Classes, "skipped:re-promoted-during-call")
 				continue
 			}
-			if a.IsLeaderAtReturn {
+			// (a stop call under way at the return - in particular a Start context that was cancelled or expired
+			// in this very instant, whose shutdown the library carries out on a goroutine of its own - owns the
+			// end of the term: the verdict false is right, the claim goes within the instant)
+			stopUnderWay := false
+			for _, st := range ci.stops[a.Obj] {
+				if st.CallSeq < a.RetSeq && (st.RetSeq < 0 || st.RetSeq > a.RetSeq) {
+					stopUnderWay = true
+				}
+			}
+			if a.IsLeaderAtReturn && !stopUnderWay {
 				v.Viols = append(v.Viols, Viol{At: a.RetT, Sig: "C04 ordemote-false-but-still-leader",
 					Msg: fmt.Sprintf("%s: ValidateTokenOrDemote called at %v returned false at %v but IsLeader() is still true", who, a.CallT, a.RetT)})
 			}
@@ -141,6 +150,12 @@ func OracleC04(tr *Trace) Verdict {
 					ok := false
 					for _, cb := range tr.CBs {
 						if cb.Obj == a.Obj && cb.Kind == "demote-enter" && cb.Seq > term.FromSeq && cb.Seq <= a.RetSeq {
+							ok = true
+						}
+						// two mechanisms demoting at once (a second caller, the validation loop, the heartbeat): the
+						// one that clears the claim runs OnDemote; the other returns false on finding the claim gone,
+						// which can be a few instructions before the callback is entered - same virtual instant
+						if cb.Obj == a.Obj && cb.Kind == "demote-enter" && cb.Seq > a.RetSeq && cb.T == a.RetT && term.ToSeq >= 0 && term.ToT == a.RetT {
 							ok = true
 						}
 					}
